@@ -203,6 +203,18 @@ def compare_case(ctx, rep, key, data, members, chain, raw_mode, tmp, what, passw
         if want != g_open:
             disagree("graph after opening differs from open_for_append", {"model": repr(want)[:2000], "impl": repr(g_open)[:2000]})
             return None
+    # ---- file image: the packed streams of the base are where they were, byte for byte
+    if res["closed"] and g_open[0] and g_open[0][0][0]:
+        p = g_open[0][0][0][0]
+        a0 = res["afterheader"] + p[0]
+        a1 = a0 + sum(p[2][:p[1]])
+        if res["data"][a0:a1] != data[a0:a1]:
+            first = next(i for i in range(a0, a1) if res["data"][i:i + 1] != data[i:i + 1])
+            rep.violation("append overwrote packed data of existing members at offset %d (packed area %d..%d, new data written at %d) "
+                          "[%s; features %s]" % (first, a0, a1, res["pos"], what, feats),
+                          {"kind": "packed-overwritten", "base": data.hex()[:100000], "members": [[k, n, d.hex()] for k, n, d in members],
+                           "chain": chain, "raw": raw_mode}, match_keys={"kind": "packed-overwritten"})
+            return None
     # ---- position
     ap = m_res(M.call("append_position", [g_open, res["afterheader"]]))
     if ap[0] != "ok" or ap[1] != res["pos"] or res["tell"] != res["pos"]:
@@ -227,7 +239,6 @@ def compare_case(ctx, rep, key, data, members, chain, raw_mode, tmp, what, passw
                 ok_model = False
         if ok_model:
             disagree("implementation raised %r, model session and header writer succeed" % (res["exc"],))
-            return None
         # a session that raises after the position was taken: is the old archive still readable?
         after = reopen_graph(new, password)
         rep.violation("append session raises %s: %s; afterwards the archive is %s [%s; features %s]" % (
@@ -244,6 +255,15 @@ def compare_case(ctx, rep, key, data, members, chain, raw_mode, tmp, what, passw
     area_start, hmode, raw_hdr = header_area(new)
     packsize = area_start - pos if members else 0
     packcrc = zlib.crc32(new[pos:pos + packsize]) if members else 0
+    if members:
+        # the header py7zr wrote must describe the file it wrote: packed streams tile up to the header area
+        ge = res["graph_end"][0][0][0][0]
+        if res["afterheader"] + ge[0] + sum(ge[2]) != area_start or ge[1] != len(ge[2]):
+            rep.violation("after an append the packed sizes in the header (packpos %d, sizes %r) do not tile the file up to the "
+                          "header area at %d [%s; features %s]" % (ge[0], ge[2], area_start, what, feats),
+                          {"kind": "pack-sizes-wrong", "base": data.hex()[:100000], "members": [[k, n, d.hex()] for k, n, d in members],
+                           "chain": chain, "raw": raw_mode}, match_keys={"kind": "pack-sizes-wrong"})
+            return None
     mm = model_members(res["graph_end"], members)
     # the entries py7zr registered carry the names handed in
     for (ft, _), (kind, nm, d) in zip(mm, members):
@@ -268,11 +288,6 @@ def compare_case(ctx, rep, key, data, members, chain, raw_mode, tmp, what, passw
             rep.violation("append overwrote packed data of existing members (packed area %d..%d) [%s]" % (a0, pos, what),
                           {"kind": "packed-overwritten", "base": data.hex()[:100000]}, match_keys={"kind": "packed-overwritten"})
             return None
-    if members:
-        ge = res["graph_end"][0][0][0][0]
-        if res["afterheader"] + ge[0] + sum(ge[2]) != area_start or ge[2][-1] != packsize:
-            disagree("packed streams do not tile up to the header area: packpos %d sizes %r, header area at %d" % (ge[0], ge[2], area_start))
-            return None
     # ---- re-serialisation: bytes (raw mode) and graph after re-opening
     hpos = area_start if hmode == "raw" else 0
     if hmode == "raw":
@@ -286,6 +301,27 @@ def compare_case(ctx, rep, key, data, members, chain, raw_mode, tmp, what, passw
         disagree("graph after re-opening: implementation %s, model %s" % (r1[0], mr[0]),
                  {"model": repr(mr[1])[:3000], "impl": repr(r1[1])[:3000]})
         return None
+    # ---- what the format lets an entry carry and the session does not write back (AppendProofs.v *_refuted)
+    if r1[0] == "ok" and g_open[1] and r1[1][1]:
+        old_files, new_files = g_open[1][0], r1[1][1][0]
+        lost = [i for i, (a, b) in enumerate(zip(old_files, new_files))
+                if (a[2] not in ([], [[]]) and b[2] != a[2]) or (a[3] not in ([], [[]]) and b[3] != a[3])]
+        if lost:
+            rep.violation("append drops the creation/access times of %d earlier member(s) (FilesInfo.write never writes them) "
+                          "[%s; features %s]" % (len(lost), what, feats),
+                          {"kind": "append-drops-times", "base": data.hex()[:100000], "members": [[k, n, d.hex()] for k, n, d in members],
+                           "chain": chain, "raw": raw_mode},
+                          match_keys={"kind": "append-drops-times"})
+        if base_raw is not None:
+            pr = m_res(M.call("parse_header", [hdr.LIM, list(base_raw)]))
+            if pr[0] == "ok" and pr[1][1]:
+                unnamed = [i for i, f in enumerate(pr[1][1][0]) if f[1] == []]
+                if unnamed and any(new_files[i][1] != [] for i in unnamed if i < len(new_files)):
+                    rep.violation("append stores the generated name %r for %d earlier member(s) that had no name [%s; features %s]" % (
+                        "".join(chr(c) for c in new_files[unnamed[0]][1][0]), len(unnamed), what, feats),
+                        {"kind": "append-names-unnamed", "base": data.hex()[:100000], "members": [[k, n, d.hex()] for k, n, d in members],
+                         "chain": chain, "raw": raw_mode},
+                        match_keys={"kind": "append-names-unnamed"})
     # ---- the theorem, run: plans of the base are a prefix of the plans after the session / after re-opening
     okb = M.call("append_base_ok", g_open)
     p0 = m_res(M.call("impl_plans", g_open))
@@ -363,9 +399,23 @@ def gen_members(rng, used, idx):
     return out
 
 
+_COPY = [[0], 1, 1, []]
+MAINFIRST = [[[[[0, 1, [9], [], []]],
+               [[[[_COPY, _COPY], [[0, 1]], [], [5, 7], 0, []]]],
+               [[[1], [], [1], [33]]]]],
+             [[[0, [[97]], [], [], [[1000]], [[32]]]]],
+             []]
+
+
 def graph_case(ctx, rep, rng, idx):
-    t = hdr.gen_py7zr_like_header(rng, with_partial=(idx % 3 == 0))
-    t, feats = vary_graph(rng, t)
+    if idx % 40 == 7:
+        # AppendProofs.v append_needs_last_is_main_refuted: a folder whose main output is not its last unpack size
+        # (header-level replay: the declared sizes are not those of real Copy coders)
+        import copy
+        t, feats = copy.deepcopy(MAINFIRST), "main_output_not_last"
+    else:
+        t = hdr.gen_py7zr_like_header(rng, with_partial=(idx % 3 == 0))
+        t, feats = vary_graph(rng, t)
     st = t[0]
     plen = (st[0][0][0][0] + sum(st[0][0][0][2])) if st else 0
     en_w = bool(st and st[0][0][0][3])
@@ -416,6 +466,10 @@ def real_case(ctx, rep, rng, idx):
         what = "py7zr archive (%d+%d sessions)" % (1, len(sess))
     elif kind == "ref":
         members0 = c06.gen_members(rng)
+        if rng.random() < 0.25:
+            for m in members0:
+                m["ctime"] = c06.FT + rng.randrange(10 ** 9) * 10 if rng.random() < 0.7 else None
+                m["atime"] = c06.FT + rng.randrange(10 ** 9) * 10 if rng.random() < 0.7 else None
         feature = rng.choice([None, None, "partial_vectors", "packpos", "zero_folder", "partial_crc"])
         lay = c06.gen_layout(rng, members0, feature)
         fl = c06.classify(members0, lay)
@@ -423,6 +477,8 @@ def real_case(ctx, rep, rng, idx):
             fl = fl + ["pack_crc"]
         if lay.get("crc") in ("folder", "folder-partial"):
             fl = fl + ["folder_crc"]
+        if any(m.get("ctime") is not None or m.get("atime") is not None for m in members0):
+            fl = fl + ["ctime_atime"]
         feats = ",".join(sorted(set(fl))) or "plain"
         data = refwriter.write_archive(members0, lay)
         what = "reference-writer archive"
